@@ -61,6 +61,8 @@ pub fn rich_docs() -> Vec<ADoc> {
             ANode::CData("<y>".into()),
             ANode::CharRef('A'),
             e("a", vec![at("d", "w")], vec![tx("2")]),
+            // a second element receiving the default: the two defaulted attributes are distinct nodes
+            e("a", vec![at("i", "2")], vec![]),
         ],
     ));
     d.doctype = Some(ADoctype {
@@ -409,6 +411,15 @@ pub fn set_family() -> Vec<Expr> {
     let star = |p: Vec<Expr>| path(true, vec![dslash(), stepp(Axis::Child, NodeTest::Any, p)]);
     for l in ["en", "EN", "en-US", "en-us", "e", "de", ""] {
         v.push(star(vec![call("lang", vec![lit(l)])]));
+    }
+    // a predicate on an attribute whose answer depends on the bearing element (attributes with equal names and values
+    // on different elements, e.g. the same DTD default, must not share an answer)
+    for (an, other, val) in [("d", "i", "2"), ("d", "d", "dv"), ("x", "y", "2")] {
+        let up = path(false, vec![step(Axis::Parent, NodeTest::Node), step(Axis::Attribute, name(other))]);
+        let p = vec![bin(Op::Eq, up, lit(val))];
+        v.push(path(true, vec![dslash(), step(Axis::Child, NodeTest::Any), stepp(Axis::Attribute, name(an), p.clone())]));
+        v.push(star(vec![path(false, vec![stepp(Axis::Attribute, name(an), p.clone())])]));
+        v.push(path(true, vec![dslash(), stepp(Axis::Attribute, NodeTest::Any, vec![bin(Op::Eq, call("count", vec![path(false, vec![step(Axis::Parent, NodeTest::Node), step(Axis::Attribute, NodeTest::Any)])]), Expr::Num("2".into()))])]));
     }
     for f in ["name", "local-name", "namespace-uri", "string", "number", "string-length", "normalize-space"] {
         v.push(star(vec![bin(Op::Eq, call(f, vec![]), lit("a"))]));
